@@ -417,8 +417,21 @@ fn replay(args: &Args) {
                     let cell = format!("Float64Chunked({} chunk(s))", ca.chunks().len());
                     cx.judge(&cell, "accessors", accessors::<Option<f64>, _>(&ca, &lbits, None));
                     cx.compare(&cell, battery::<Option<f64>, _>(&ca), false);
-                    // Polars output containers
-                    cx.judge(&cell, "outputs", polars_out(&ca, &vals));
+                    // Polars output containers: three separate matrix cells
+                    for (cell2, r) in polars_out(&ca, &vals) {
+                        cx.rep.cells += 1;
+                        match r {
+                            Ok(()) => cx.rep.ok("outputs", 0.0),
+                            Err(d) => {
+                                // the call-site class of the failure is part of the site, so that a
+                                // different failure in the same cell is a different site
+                                let class = if d.contains("do not support set in given index") { "panic: uset unimplemented" }
+                                            else if d.contains("panicked") { "panic" } else { "wrong result" };
+                                let key = format!("outputs|{cell2}|{}", cx.key);
+                                cx.rep.mismatch("outputs", &format!("outputs|{cell2}|{class}"), &key, cell2, &d, cx.case);
+                            },
+                        }
+                    }
                 }
                 #[cfg(not(feature = "pl"))]
                 {
@@ -435,38 +448,43 @@ fn replay(args: &Args) {
 }
 
 #[cfg(feature = "pl")]
-fn polars_out(ca: &tevec::export::polars::prelude::Float64Chunked, vals: &Vec<f64>) -> Result<(), String> {
+fn polars_out(ca: &tevec::export::polars::prelude::Float64Chunked, vals: &Vec<f64>) -> Vec<(&'static str, Result<(), String>)> {
     use tevec::export::polars::prelude::*;
-    let r = catch(|| -> Result<(), String> {
-        let base: Vec<u64> = vals.ts_vsum::<Vec<f64>, f64>(2, Some(1)).into_iter().map(bits).collect();
-        // Polars in -> Polars out
+    let base: Vec<u64> = vals.ts_vsum::<Vec<f64>, f64>(2, Some(1)).into_iter().map(bits).collect();
+    let flat = |r: Result<Result<(), String>, String>| match r {
+        Ok(x) => x,
+        Err(p) => Err(format!("panicked: {p}")),
+    };
+    let mut out = Vec::new();
+    out.push(("Float64Chunked->Float64Chunked", flat(catch(|| {
         let o: Float64Chunked = ca.ts_vsum(2, Some(1));
         let got: Vec<u64> = o.into_iter().map(|x| x.map(bits).unwrap_or(u64::MAX)).collect();
-        if got != base {
-            return Err("Polars -> Polars ts_vsum differs from Vec<f64>".into());
-        }
-        // Polars in -> Vec out
+        if got == base { Ok(()) } else { Err("ts_vsum differs from the Vec<f64> result".into()) }
+    }))));
+    out.push(("Float64Chunked->Vec<f64>", flat(catch(|| {
         let o: Vec<f64> = ca.ts_vsum(2, Some(1));
-        if o.into_iter().map(bits).collect::<Vec<_>>() != base {
-            return Err("Polars -> Vec ts_vsum differs from Vec<f64>".into());
-        }
-        Ok(())
-    });
-    match r {
-        Ok(x) => x?,
-        Err(p) => return Err(format!("Polars input: panicked: {p}")),
-    }
-    // fast-path input -> Polars output
-    let r = catch(|| -> Result<(), String> {
-        let base: Vec<u64> = vals.ts_vsum::<Vec<f64>, f64>(2, Some(1)).into_iter().map(bits).collect();
+        if o.into_iter().map(bits).collect::<Vec<_>>() == base { Ok(()) } else { Err("ts_vsum differs from the Vec<f64> result".into()) }
+    }))));
+    out.push(("Float64Chunked->Float64Chunked (index driver)", flat(catch(|| {
+        let b2: Vec<u64> = vals.ts_vargmax::<Vec<f64>, f64>(3, Some(1)).into_iter().map(bits).collect();
+        let o: Float64Chunked = ca.ts_vargmax(3, Some(1));
+        let got: Vec<u64> = o.into_iter().map(|x| x.map(bits).unwrap_or(u64::MAX)).collect();
+        if got == b2 { Ok(()) } else { Err("ts_vargmax differs from the Vec<f64> result".into()) }
+    }))));
+    // fast-path input (Vec) -> Polars output
+    out.push(("Vec<f64>(fast path)->Float64Chunked", flat(catch(|| {
         let o: Float64Chunked = vals.ts_vsum(2, Some(1));
         let got: Vec<u64> = o.into_iter().map(|x| x.map(bits).unwrap_or(u64::MAX)).collect();
-        if got != base { Err("Vec -> Polars ts_vsum differs from Vec<f64>".into()) } else { Ok(()) }
-    });
-    match r {
-        Ok(x) => x,
-        Err(p) => Err(format!("Vec<f64> input -> Float64Chunked output: panicked: {p}")),
-    }
+        if got == base { Ok(()) } else { Err("ts_vsum differs from the Vec<f64> result".into()) }
+    }))));
+    // non-fast-path input (VecDeque) -> Polars output
+    out.push(("VecDeque<f64>->Float64Chunked", flat(catch(|| {
+        let d: VecDeque<f64> = vals.iter().cloned().collect();
+        let o: Float64Chunked = d.ts_vsum(2, Some(1));
+        let got: Vec<u64> = o.into_iter().map(|x| x.map(bits).unwrap_or(u64::MAX)).collect();
+        if got == base { Ok(()) } else { Err("ts_vsum differs from the Vec<f64> result".into()) }
+    }))));
+    out
 }
 
 fn main() {
